@@ -89,6 +89,11 @@ CONTRACTS = [
                     "statement_list_fixed": "self._stmt == pre_loop(self._stmt)",
                     "flag_untouched": "self._evaluated == old(self._evaluated)",
                 },
+                step={
+                    "teaches_the_session_the_columns_of_the_written_table": "forall(lambda t: implies(t in stmt_holder.write and len(stmt_holder.write) == 1 and isinstance(t, Table) and len(stmt_holder.get_table_columns(t)) > 0, str(t) in prov._session_metadata and prov._session_metadata[str(t)] == [c.raw_name for c in stmt_holder.get_table_columns(t)]))",
+                    "a_statement_that_writes_nothing_teaches_nothing": "implies(len(stmt_holder.write) == 0, prov._session_metadata == pre_iter(prov._session_metadata))",
+                },
+                step_props=["C04"],
                 modifies=["prov._session_metadata"],
                 allocates=True,
             )
